@@ -160,8 +160,19 @@ def main(prop, argv):
         fp_changed = fingerprints.changed_for(prop.ID, getattr(prop, "EXTRA_FILES", ()))
     except Exception:
         fp_changed = []
+    # function-level fingerprints (model map): which mapped functions differ from the tree the models were aligned with
+    fn_changed = None
+    try:
+        from . import modelmap
+        aff = modelmap.affected(C.REPO) or []
+        fn_changed = [a for a in aff if prop.ID in a["properties"]]
+        ch = modelmap.changed_functions(C.REPO) or {}
+        anchored = set(fingerprints.anchors().get(prop.ID, []))
+        mod_level = [f for f in ch.get("module_level", []) if f in anchored]
+    except Exception:
+        fn_changed, mod_level = None, []
     # anchored source differs from the tree the model was last aligned with: search with a larger budget
-    scale = 3 if fp_changed else 1
+    scale = 3 if (fp_changed or fn_changed or mod_level) else 1
     import tempfile
     from . import implcov
     covdir = tempfile.mkdtemp(prefix="implcov-", dir=os.path.join(C.VERIF, "replays") if os.path.isdir(os.path.join(C.VERIF, "replays")) else None)
@@ -247,6 +258,22 @@ def main(prop, argv):
         if cov_on:
             files = sorted(set(fingerprints.anchors().get(prop.ID, [])) | set(getattr(prop, "EXTRA_FILES", ())))
             coverage["impl_coverage"] = implcov.report(files, implcov.collect(covdir))
+            try:
+                mm = modelmap.by_name()
+                ic = coverage["impl_coverage"]
+                for f in ic["functions_partial"]:
+                    f["status"] = (mm.get(f["function"]) or {}).get("status")
+                ic["functions_unreached"] = [{"function": n, "status": (mm.get(n) or {}).get("status")}
+                                             for n in ic["functions_unreached"]]
+                st = {}
+                for n, e in mm.items():
+                    if n.split(":")[0] in files:
+                        st[e["status"]] = st.get(e["status"], 0) + 1
+                coverage["model_map"] = {"anchored_functions_by_status": st, "doc": "docs/MODEL_MAP.md",
+                                         "functions_changed_since_alignment": fn_changed,
+                                         "module_level_changed": mod_level}
+            except Exception:
+                coverage["model_map"] = {"error": traceback.format_exc()[-300:]}
     except Exception:
         coverage["impl_coverage"] = {"error": traceback.format_exc()[-400:]}
     finally:
